@@ -16,7 +16,7 @@ def run(tier, seed):
              'at least one clause was learnt',
         models=[('MC_SatCoreImpl', 'MC_SatCoreImpl_A1.cfg', 'MC_SatCoreImpl_A.cfg',
                  'implementation-shaped model of sat_core / clause (literal order inside clauses, ordered watch lists, trail, levels, reasons, queue; new_clause, assume, pop, next, propagate with first-UIP analysis and record, simplify_db): WatchInv, PropagationComplete, AssignedEntailed, DatabaseEntailed, DeadOnlyIfUnsat, CompleteIsModel, TrailInv, ReasonHeadInv over all call histories on a fixed clause pool', None)],
-        satimpl=(['SatCoreGen_A1.cfg', 'SatCoreGen_B.cfg', 'SatCoreGen_C.cfg'], ['SatCoreGen_A.cfg', 'SatCoreGen_B.cfg', 'SatCoreGen_C.cfg']),
+        satimpl=(['SatCoreGen_A1.cfg', 'SatCoreGen_B.cfg', 'SatCoreGen_C.cfg', 'SatCoreGen_Asim.cfg'], ['SatCoreGen_A.cfg', 'SatCoreGen_B.cfg', 'SatCoreGen_C.cfg', 'SatCoreGen_Asim.cfg']),
         assumptions=['at most 11 propositional variables and 6 theory atoms per execution (model enumeration, Fourier-Motzkin)',
                      'documented preconditions respected: creation at root level, empty queue before assume/check/next, '
                      'no use after a root-level inconsistency'])
